@@ -251,7 +251,7 @@ def _delivery_helpers(prog, co):
     for b in prog.bodies.values():
         if b.key == co.key or not b.key.startswith("elvis_core::network::") or b.kind not in ("fn", "method"):
             continue
-        if K.calls_to(b, K.PCI_RECEIVE) and not any(cfg(b).in_loop(bb) for bb in range(len(b.blocks)) if not b.is_cleanup(bb)):
+        if K.calls_to(b, K.PCI_RECEIVE):
             out.append(b.key)
     return tuple(out)
 
@@ -367,6 +367,37 @@ def _check_network_send(ctx, prog, co):
     probs = _unicast_formula(ctx, prog, co, helpers)
     (ctx.bad if probs else ctx.ok)("L-UNICAST", "L-UNICAST:Network::send", co.span,
         "; ".join(probs[:3]) if probs else "formula of send specialised to the destination: None / BROADCAST_MAC -> taps.iter(); any other m -> taps.get(m) only, at most once, nobody when no tap owns m")
+
+    # ---- L-DELAY when the waiting lives in an async helper of the module (send = transmit(..).await; deliver(..)):
+    sleeps_here = [a for a in aps if "tokio::time::sleep::Sleep" in (K.awaited_future_type(co, a) or "")]
+    if not sleeps_here:
+        probs = []
+        waits = []
+        for a in aps:
+            ty = K.awaited_future_type(co, a) or ""
+            hk = [k for k in prog.bodies if k.startswith("elvis_core::network::") and k.endswith("::{closure#0}") and k in ty]
+            if not hk:
+                # an `async fn` of the module: its future is opaque in the type, the call that made it is not
+                hk = sorted({x[1] + "::{closure#0}" for x in dep.origins(co, a["awaitee"]) if x[0] == "call" and x[1] and x[1].startswith("elvis_core::network::")
+                             and x[1] + "::{closure#0}" in prog.bodies})
+            for k in hk:
+                hb = prog.body(k)
+                hs = [x for x in K.await_points(hb) if "tokio::time::sleep::Sleep" in (K.awaited_future_type(hb, x) or "")]
+                lat = [x for x in hs if dep.has_call(dep.origins(hb, x["awaitee"]), "network::{impl#4}::next")]
+                thr = [x for x in hs if dep.has_call(dep.origins(hb, x["awaitee"]), "network::{impl#5}::next") or dep.has_call(dep.origins(hb, x["awaitee"]), "message::{impl#0}::len")]
+                if len(lat) == 1 and len(thr) == 1:
+                    waits.append((a, k))
+        if len(waits) != 1:
+            probs.append("no awaited sleep(latency) / throughput sleep in Network::send, and no single awaited helper of the module that contains both")
+        else:
+            a, k = waits[0]
+            for bb, t in recvs:
+                if not (a["ready_bb"] == bb or g.dominates(a["ready_bb"], bb)):
+                    probs.append("the hand-over at %s is not dominated by the completion of %s: some frames reach a tap without the configured latency / transfer time (and without taking their turn on the medium)" % (
+                        F.call_loc(t), K.short(k.rsplit("::", 1)[0])))
+        (ctx.bad if probs else ctx.ok)("L-DELAY", "L-DELAY:Network::send", co.span,
+            "; ".join(sorted(set(probs))[:2]) if probs else "every hand-over is dominated by the completed await of the helper that sleeps the latency and the transfer time (weak form: the helper's own guards are not re-derived)")
+        return
 
     # ---- L-DELAY: latency
     probs = []
